@@ -8,18 +8,21 @@ the scheduler), bounds (human readable, copied into evidence).
 ENTRIES = []
 
 
-def add(filters, props, tier, cap, bounds, mem=2, cfg="nostd", cbmc=(), tmul=1):
+def add(filters, props, tier, cap, bounds, mem=2, cfg="nostd", cbmc=(), tmul=1, quick_for=None):
+    """quick_for: the properties whose QUICK check runs this entry (default: all of props); the
+    thorough tier of every property in props runs it."""
     ENTRIES.append({"filters": list(filters), "props": list(props), "tier": tier, "cap": cap,
-                    "bounds": bounds, "mem": mem, "cfg": cfg, "cbmc": list(cbmc), "tmul": tmul})
+                    "bounds": bounds, "mem": mem, "cfg": cfg, "cbmc": list(cbmc), "tmul": tmul,
+                    "quick_for": list(quick_for) if quick_for is not None else list(props)})
 
 
-RAW_STEP = ["C01", "C02", "C03", "C05", "C06", "C12", "C13"]
+RAW_STEP = ["C01", "C02", "C03", "C05", "C06", "C12", "C13", "C17"]
 RAW_Q = ["h_raw::c0n0::", "h_raw::c1n0::", "h_raw::c1n1::", "h_raw::c2n0::", "h_raw::c2n1::", "h_raw::c2n2::",
          "h_raw::ctor"]
 RAW_T = ["h_raw::c3n0::", "h_raw::c3n1::", "h_raw::c3n2::", "h_raw::c3n3::"]
 add(RAW_Q, RAW_STEP, "quick", 3,
     "RawLRU<u8,u8>: every state with cap in {0 (after resize(0)),1,2} and len <= cap, one operation of the full "
-    "API with symbolic key/value/new capacity (resize argument: full usize range)")
+    "API with symbolic key/value/new capacity (resize argument: full usize range)", quick_for=["C06", "C17"])
 add(RAW_T, RAW_STEP, "thorough", 4,
     "RawLRU<u8,u8>: every state with cap = 3 and len <= 3, one operation of the full API", mem=3)
 
@@ -27,7 +30,7 @@ SLRU_STEP = ["C01", "C02", "C03", "C05", "C07", "C12", "C13"]
 add(["h_slru::c11", "h_slru::ctor", "h_slru::c22n22", "h_slru::c22n12", "h_slru::c22n21"], SLRU_STEP, "quick", 3,
     "SegmentedCache<u8,u8>: (probationary,protected) caps (1,1) with all 4 occupancies and (2,2) with the three "
     "fullest occupancies; one operation (Cache trait, put_protected, peek_*/remove_lru_from_*, purge) with symbolic arguments",
-    mem=3)
+    mem=3, quick_for=["C07"])
 add(["h_slru::c12", "h_slru::c21", "h_slru::c22"], SLRU_STEP, "thorough", 3,
     "SegmentedCache<u8,u8>: all 25 occupancies of caps in {1,2}x{1,2}; one operation with symbolic arguments", mem=3)
 
@@ -56,7 +59,7 @@ add(fam("2q", q2_shapes(1), Q2_KINDS) + fam("2q", ["s2g1n200", "s2g1n111", "s2g2
     Q2_STEP, "quick", 3,
     "TwoQueueCache<u8,u8>: size 1 (all 6 occupancies) and four full-cache occupancies of size 2; quota symbolic in "
     "0..=size (enumerated where it steers control), ghost bound 1..=size; one operation; keys by pattern enumeration",
-    mem=4)
+    mem=4, quick_for=["C08"])
 add(fam("2q", q2_shapes(2), Q2_KINDS), Q2_STEP, "thorough", 3,
     "TwoQueueCache<u8,u8>: size 2, all 30 (ghost bound, occupancy) shapes; one operation; keys by pattern enumeration", mem=4)
 add(fam("2q", q2_shapes(3, full_only=True), ["put"]), Q2_STEP, "thorough", 4,
@@ -83,7 +86,7 @@ add(fam("arc", arc_shapes(1), Q2_KINDS) + ["h_arc::ctor"] +
     fam("arc", ["s2n2022", "s2n1111", "s2n0212", "s2n1121"], ["look", "put"]),
     ARC_STEP, "quick", 3,
     "AdaptiveCache<u8,u8>: size 1 (all 12 occupancies) and four full-cache occupancies of size 2; p symbolic in "
-    "0..=size (enumerated where it steers control); one operation; keys by pattern enumeration", mem=4)
+    "0..=size (enumerated where it steers control); one operation; keys by pattern enumeration", mem=4, quick_for=["C09"])
 add(fam("arc", arc_shapes(2), Q2_KINDS), ARC_STEP, "thorough", 3,
     "AdaptiveCache<u8,u8>: size 2, all 54 occupancies; one operation; keys by pattern enumeration", mem=4)
 add(fam("arc", ["s1n0000", "s1n1000", "s1n0100", "s1n0010", "s1n0001"], ["symkeys_put", "symkeys_look"]),
@@ -118,7 +121,7 @@ WT_KINDS = ["put", "get", "peek", "bulk"]
 add(fam("wtlfu", wt_shapes((1, 1, 1)), WT_KINDS) + ["h_wtlfu::c111n000::getest"], WT_STEP, "quick", 3,
     "WTinyLFUCache<u8,u8>: (window,probationary,protected) = (1,1,1), all 8 occupancies; real TinyLFU in an arbitrary "
     "state (2 counters/row, 512-bit doorkeeper, 1..=2 probes, symbolic per-key hashes for put and the estimator-effect "
-    "harness); one operation; keys by pattern enumeration", mem=6)
+    "harness); one operation; keys by pattern enumeration", mem=6, quick_for=["C10"])
 add(fam("wtlfu", wt_shapes((2, 1, 1)) + wt_shapes((1, 2, 1)) + wt_shapes((1, 1, 2)), ["put", "get", "peek"]) +
     fam("wtlfu", ["c222n221", "c222n222"], ["put", "peek"]) +
     ["h_wtlfu::c111n100::getest", "h_wtlfu::c111n010::getest", "h_wtlfu::c111n001::getest"],
@@ -135,9 +138,62 @@ add(["h_ctor::raw_all_constructors", "h_ctor::sampled_constructors", "h_ctor::ti
     "constructors/builders: RawLRU (all four, cap full usize), SegmentedCache/AdaptiveCache (sizes <= 3), TwoQueueCache "
     "(sizes 1 and 3, ratio = arbitrary f64 bit pattern), TinyLFU::new (size, samples <= 4; invalid class: arbitrary f64; "
     "valid class: ratio grid), WTinyLFUCache (grid of zero/non-zero sizes, ratio grid incl. NaN/inf/out-of-range; "
-    "new(size<=400)), SampledLFU (all seven); conversions From<[_;N]>/Vec/&[_]/FromIterator with N <= 2", mem=6)
+    "new(size<=400)), SampledLFU (all seven); conversions From<[_;N]>/Vec/&[_]/FromIterator with N <= 2", mem=6,
+    quick_for=["C05"])
+add(["h_ctor::twoq_with_2q_parameters_sym"], ["C08"], "quick", 4,
+    "TwoQueueCache::with_2q_parameters at sizes 1 and 3 with the recent ratio an arbitrary f64 bit pattern: quota and ghost "
+    "bound == floor(size x ratio)", mem=6)
+add(["h_ctor::wtinylfu_ctor_sizes"], ["C10"], "quick", 4, "WTinyLFUCache::with_sizes over zero/non-zero sizes: capacities as requested", mem=6)
+add(["h_ctor::tinylfu_ctor_valid_grid", "h_ctor::tinylfu_new_usable"], ["C11"], "quick", 4,
+    "TinyLFU::new(size, samples <= 4, ratio grid): shape of a new estimator; first access on sizes 1..3", mem=6)
 add(["h_ctor::twoq_new", "h_ctor::twoq_with_recent_ratio", "h_ctor::twoq_with_ghost_ratio", "h_ctor::twoq_with_2q_parameters",
      "h_ctor::twoq_builder", "h_ctor::tinylfu_ctor_valid_symbolic_ratio", "h_ctor::conv_n3"],
     ["C05", "C08", "C11", "C06"], "thorough", 4,
     "TwoQueueCache constructors over the grid sizes {0,1,2,3,7,100} x ratios {0,1,.25,.5,.999,-0,-.5,1.5,NaN,inf}; "
     "TinyLFU::new with a symbolic ratio in [2^-64,1); conversions with N = 3", mem=8, tmul=2)
+
+# ---- clone / callback / PutResult / borrowed keys / ownership / iterators ---------------------------
+add(["h_misc::clone_raw::c2n2", "h_misc::clone_raw::c2n1", "h_misc::clone_raw::c1n0", "h_misc::clone_wt::n100",
+     "h_tlfu::r2l3::clone_step"], ["C16", "C17", "C03"], "quick", 4,
+    "clone: RawLRU<u8,u8> cap<=2 (symbolic keys, index iteration order symbolic), WTinyLFUCache (1,1,1) with a symbolic "
+    "estimator, TinyLFU arbitrary state; lock-step operation on both, independence, drop of the original", mem=8)
+add(["h_misc::clone_raw::c3n2", "h_misc::clone_wt::n111"], ["C16", "C17", "C03"], "thorough", 4,
+    "clone: RawLRU cap 3 with 2 entries, WTinyLFUCache (1,1,1) all lists occupied", mem=10, tmul=2)
+add(["h_misc::cb::c1n1", "h_misc::cb::c2n1", "h_misc::cb::c2n2"], ["C15"], "quick", 4,
+    "RawLRU<u8,u8> with a logging callback (both callback constructors), cap <= 2, every occupancy incl. full; one operation of "
+    "{put, remove, remove_lru, purge, resize(any usize), get, get_mut, peeks, *_or_put, iteration}; log compared with the "
+    "oracle's departures in order", mem=6)
+add(["h_misc::cb::c2n2h", "h_misc::cb::c3n3", "h_misc::cb::c3n2"], ["C15"], "thorough", 4,
+    "RawLRU with a logging callback, cap 3", mem=8, tmul=2)
+add(["h_misc::putresult_structural"], ["C12"], "quick", 4, "PutResult<u8,u8>: two arbitrary values; ==, clone, copy")
+add(["h_misc::boxed::"], ["C02", "C03"], "quick", 4,
+    "RawLRU<Box<u8>,u8> (heap-owning keys) cap <= 2, lookups through &u8 (Borrow), one operation, cache dropped", mem=6)
+add(["h_misc::own::raw_", "h_misc::own::slru_n21", "h_misc::own::twoq"], ["C04", "C03"], "quick", 4,
+    "drop-counting tokens as keys and values: RawLRU cap <= 2, SegmentedCache (2,2) with 3 entries, TwoQueueCache size 2 with "
+    "full ghost list; one operation (put fresh/resident, remove, get, purge, resize), results dropped, cache dropped; CBMC "
+    "memory-leak check on", mem=8, cbmc=["--memory-leak-check"], tmul=2)
+add(["h_misc::own::slru_n22", "h_misc::own::arc"], ["C04", "C03"], "thorough", 4,
+    "drop-counting tokens: SegmentedCache (2,2) full, AdaptiveCache size 2 with full ghost lists; memory-leak check on",
+    mem=10, cbmc=["--memory-leak-check"], tmul=3)
+add(["h_iter::n0::", "h_iter::n1::", "h_iter::n2::", "h_iter::twoq_", "h_iter::arc_"], ["C14", "C13"], "quick", 4,
+    "all 12 RawLRU iterator kinds on every state with len <= 2 (symbolic keys/values), symbolic interleaving of "
+    "next/next_back of length len+2, clone independence, writes through mutable iterators; the 30+40 per-list iterator "
+    "accessors of TwoQueueCache / AdaptiveCache on a size-2 state with all lists occupied", mem=4)
+add(["h_iter::n3::"], ["C14", "C13"], "thorough", 4, "all 12 RawLRU iterator kinds, len 3", mem=6)
+add(["h_tlfu::r2l3::batch"], ["C11"], "quick", 3, "TinyLFU batch increments (2 hashes) == two single increments, arbitrary state", mem=8)
+
+
+# ---- core subset: what the QUICK checks of the cross-cutting properties run -----------------------
+CORE = ["C01", "C02", "C03", "C05", "C12", "C13"]
+add(["h_raw::c0n0::", "h_raw::c1n1::", "h_raw::c2n2::", "h_raw::c2n1::put", "h_raw::ctor",
+     "h_slru::c11n11::", "h_slru::c22n22::put", "h_slru::c22n12::look", "h_slru::c22n21::putprot", "h_slru::ctor"],
+    CORE, "quick", 3,
+    "core subset: RawLRU caps 0/1/2 (full and one partly filled occupancy), SegmentedCache (1,1) full and (2,2) fullest "
+    "occupancies; one operation each", mem=3)
+add(fam("2q", ["s1g1n101", "s1g1n011", "s2g1n111"], ["look", "put"]) + ["h_2q::s1g1n101::bulk"] +
+    fam("arc", ["s1n1010", "s1n0111", "s2n1111"], ["look", "put"]) + ["h_arc::s1n1011::bulk", "h_arc::ctor"] +
+    fam("wtlfu", ["c111n111", "c111n110"], ["put", "peek"]) + ["h_wtlfu::c111n101::get", "h_wtlfu::c111n111::bulk"],
+    CORE, "quick", 3,
+    "core subset: TwoQueueCache (size 1 two occupancies, size 2 all queues occupied), AdaptiveCache (size 1 two occupancies with "
+    "ghosts, size 2 all lists occupied), WTinyLFUCache (1,1,1) full / probationary-full; one operation each; keys by pattern "
+    "enumeration", mem=5)
